@@ -11,6 +11,16 @@ constants, names, `self.<attr>` and `<param>.<attr>`, `+ - * // >>`, `int(x)` (i
 integers), `datetime.timedelta(microseconds=x)` (the result is modelled as x µs), tuples.
 Python's floor division is `Int.fdiv`, `x >> k` is `Int.fdiv x (2^k)`.  Anything else raises
 `CannotTranslate` – reported by check.py as a broken translator obligation.
+
+Loops (`get_segment_index`): a `while <cmp>:` whose body consists of assignments, augmented
+assignments and `if <cmp>:` blocks (no else) of the same is translated into a structurally
+recursive Lean function over a fuel argument – parameters are the free names of the loop
+(by *name*, so the tie theorems use named arguments and do not depend on their order), the
+state is the tuple of the names the body assigns.  At fuel 0 the current state is returned;
+`Lemmas/Segments.lean` (`getSegmentIndex_eq`) shows `n + 1` iterations always suffice.
+`self.segments[i].duration` becomes `segDur i` for a parameter `segDur : Int → Int`;
+`<alias>.media_duration_using_timescale(x)` becomes a call of the translated definition;
+`assert` and `logging.*` statements are skipped (asserts are listed in the doc comment).
 """
 from __future__ import annotations
 
@@ -47,6 +57,12 @@ class Tr:
         self.env = {p: p for p in params}
         self.lets: list[str] = []
         self.n = 0
+        self.uses_segdur = False
+        self.methods: dict = {}      # (alias, method) -> (lean function, [leading lean args])
+        self.aliases: dict = {}      # python expression text -> alias kind
+        self.loops: list[str] = []   # auxiliary definitions (one per while loop)
+        self.asserts: list[str] = []
+        self.fname = "f"
 
     def expr(self, e) -> str:
         if isinstance(e, ast.Constant) and isinstance(e.value, int) and not isinstance(e.value, bool):
@@ -60,6 +76,15 @@ class Tr:
             if key in self.attrs:
                 return self.attrs[key]
             raise CannotTranslate(f"unknown attribute {e.value.id}.{e.attr}")
+        if (isinstance(e, ast.Attribute) and e.attr == "duration" and isinstance(e.value, ast.Subscript)
+                and isinstance(e.value.value, ast.Attribute) and e.value.value.attr == "segments"
+                and isinstance(e.value.value.value, ast.Name) and e.value.value.value.id == "self"):
+            self.uses_segdur = True
+            return f"(segDur {self.expr(e.value.slice)})"
+        if (isinstance(e, ast.Call) and isinstance(e.func, ast.Attribute) and isinstance(e.func.value, ast.Name)
+                and (e.func.value.id, e.func.attr) in self.methods and not e.keywords):
+            fn, pre = self.methods[(e.func.value.id, e.func.attr)]
+            return "(" + " ".join([fn] + pre + [self.expr(a) for a in e.args]) + ")"
         if isinstance(e, ast.BinOp):
             a, b = self.expr(e.left), self.expr(e.right)
             if isinstance(e.op, ast.Add):
@@ -89,6 +114,14 @@ class Tr:
             return "(" + ", ".join(self.expr(x) for x in e.elts) + ")"
         raise CannotTranslate(f"expression {ast.unparse(e)}")
 
+    CMP = {ast.Lt: "<", ast.Gt: ">", ast.LtE: "≤", ast.GtE: "≥", ast.Eq: "=", ast.NotEq: "≠"}
+
+    def cond(self, e) -> str:
+        """a comparison of two integer expressions, as a decidable Lean proposition"""
+        if isinstance(e, ast.Compare) and len(e.ops) == 1 and type(e.ops[0]) in self.CMP:
+            return f"({self.expr(e.left)} {self.CMP[type(e.ops[0])]} {self.expr(e.comparators[0])})"
+        raise CannotTranslate(f"condition {ast.unparse(e)}")
+
     def bind(self, name: str, value: str):
         self.n += 1
         lean = f"{name}_{self.n}"
@@ -110,8 +143,101 @@ class Tr:
                 continue
             if isinstance(s, ast.Return):
                 return self.expr(s.value)
+            if isinstance(s, ast.Assert):
+                self.asserts.append(ast.unparse(s.test))
+                continue
+            if (isinstance(s, ast.Expr) and isinstance(s.value, ast.Call) and isinstance(s.value.func, ast.Attribute)
+                    and isinstance(s.value.func.value, ast.Name) and s.value.func.value.id == "logging"):
+                continue
+            if isinstance(s, ast.While) and not s.orelse:
+                self.while_loop(s)
+                continue
             raise CannotTranslate(f"statement {ast.unparse(s)[:60]}")
         raise CannotTranslate("no return")
+
+    # ---- loops -------------------------------------------------------------------------
+    @staticmethod
+    def assigned(body) -> list:
+        out = []
+        for s in body:
+            if isinstance(s, (ast.Assign, ast.AugAssign, ast.AnnAssign)):
+                t = s.targets[0] if isinstance(s, ast.Assign) else s.target
+                if not isinstance(t, ast.Name):
+                    raise CannotTranslate(f"assignment target {ast.unparse(t)}")
+                if t.id not in out:
+                    out.append(t.id)
+            elif isinstance(s, ast.If) and not s.orelse:
+                for v in Tr.assigned(s.body):
+                    if v not in out:
+                        out.append(v)
+            else:
+                raise CannotTranslate(f"loop statement {ast.unparse(s)[:60]}")
+        return out
+
+    def block(self, body):
+        """straight-line block with `if` (no else): updates self.env, appends lets"""
+        for s in body:
+            if isinstance(s, ast.Assign) and len(s.targets) == 1:
+                self.bind(s.targets[0].id, self.expr(s.value))
+            elif isinstance(s, ast.AnnAssign) and s.value is not None:
+                self.bind(s.target.id, self.expr(s.value))
+            elif isinstance(s, ast.AugAssign) and isinstance(s.op, (ast.Add, ast.Sub)):
+                op = "+" if isinstance(s.op, ast.Add) else "-"
+                self.bind(s.target.id, f"({self.env[s.target.id]} {op} {self.expr(s.value)})")
+            elif isinstance(s, ast.If) and not s.orelse:
+                c = self.cond(s.test)
+                before = dict(self.env)
+                self.block(s.body)
+                for v in Tr.assigned(s.body):
+                    if v not in before:
+                        raise CannotTranslate(f"{v} is first assigned inside an `if`")
+                    self.bind(v, f"(if {c} then {self.env[v]} else {before[v]})")
+            else:
+                raise CannotTranslate(f"loop statement {ast.unparse(s)[:60]}")
+
+    def while_loop(self, w: ast.While):
+        state = Tr.assigned(w.body)
+        for v in state:
+            if v not in self.env:
+                raise CannotTranslate(f"loop variable {v} is not initialised before the loop")
+        # free names / attributes read inside the loop
+        free, attrs = [], []
+        for node in ast.walk(ast.Module(body=[ast.Expr(w.test)] + w.body, type_ignores=[])):
+            if isinstance(node, ast.Name) and isinstance(node.ctx, ast.Load) and node.id not in state \
+                    and node.id in self.env and node.id not in free:
+                free.append(node.id)
+            if isinstance(node, ast.Attribute) and isinstance(node.value, ast.Name) \
+                    and (node.value.id, node.attr) in self.attrs and self.attrs[(node.value.id, node.attr)] not in attrs:
+                attrs.append(self.attrs[(node.value.id, node.attr)])
+        inner = Tr(self.attrs, [])
+        inner.methods = self.methods
+        inner.env = {v: v for v in free + state}
+        test = inner.cond(w.test)
+        inner.block(w.body)
+        lname = f"{self.fname}_while{len(self.loops) + 1}"
+        params = "".join(f" ({p} : Int)" for p in free + attrs)
+        sd = " (segDur : Int → Int)"
+        pat = ", ".join(state)
+        ty = " × ".join(["Int"] * len(state))
+        lets = "".join(f"      {l}\n" for l in inner.lets)
+        rec_args = " ".join(inner.env[v] for v in state)
+        named = " ".join(f"({p} := {p})" for p in free + attrs)
+        self.loops.append(
+            f"/-- the `while {ast.unparse(w.test)}` loop of `{self.fname}`; state ({pat}) -/\n"
+            f"def {lname}{sd}{params} : Nat → {' → '.join(['Int'] * len(state))} → {ty}\n"
+            f"  | 0, {pat} => ({pat})\n"
+            f"  | fuel+1, {pat} =>\n"
+            f"    if {test} then\n{lets}"
+            f"      {lname} segDur {named} fuel {rec_args}\n"
+            f"    else ({pat})\n")
+        self.n += 1
+        res = f"w_{self.n}"
+        call_named = " ".join(f"({p} := {self.env[p]})" for p in free) + " " + " ".join(f"({p} := {p})" for p in attrs)
+        self.lets.append(f"let {res} : {ty} := {lname} segDur {call_named} fuel " + " ".join(self.env[v] for v in state))
+        for i, v in enumerate(state):
+            proj = res + ".2" * i + (".1" if i < len(state) - 1 else "")
+            self.bind(v, proj)
+        self.uses_segdur = True
 
 
 def vod_branch(fn, want_inner_if=None):
@@ -188,6 +314,30 @@ def translate() -> str:
     emit("vodTimeToSegment", ["segment_time", "start_number", "segment_duration"], tr, res, "Int × Int × Int",
          "representation.py `calculate_segment_number_and_time`, VOD branch for a `$Time$` request: "
          "(segment_num, mod_segment, origin_time)")
+    # 7. Representation.get_segment_index (with its while loop)
+    fn = find_func(t, "Representation", "get_segment_index")
+    gattrs = {("self", "num_media_segments"): "num_media_segments", ("self", "timescale"): "timescale"}
+    tr = Tr(gattrs, ["timecode"])
+    tr.fname = "getSegmentIndex"
+    body = []
+    for s in fn.body:
+        # `stream_ref = self._timing.stream_reference` – an alias for the timing reference object
+        if (isinstance(s, ast.Assign) and isinstance(s.targets[0], ast.Name)
+                and ast.unparse(s.value) == "self._timing.stream_reference"):
+            tr.methods[(s.targets[0].id, "media_duration_using_timescale")] = (
+                "mediaDurationUsingTimescale", ["ref_media_duration", "ref_timescale"])
+            continue
+        body.append(s)
+    result = tr.stmts(body)
+    lets = "".join(f"  {l}\n" for l in tr.lets)
+    asserts = "; ".join(tr.asserts)
+    defs.extend(tr.loops)
+    defs.append(
+        "/-- representation.py `Representation.get_segment_index`: (mod_segment, seg_start_tc, origin_time); "
+        f"`fuel` bounds the loop; asserts skipped: {asserts} -/\n"
+        "def getSegmentIndex (segDur : Int → Int) (ref_media_duration : Int) (ref_timescale : Int) (timescale : Int) "
+        "(num_media_segments : Int) (timecode : Int) (fuel : Nat) : Int × Int × Int :=\n"
+        f"{lets}  {result}\n")
     head = ("/-! GENERATED by harness/gen_arith.py from /repo's source text (Python ast) – do not edit.\n"
             "Straight-line integer arithmetic of functions on the serving path; `Props/GenTie.lean`\n"
             "proves each definition equal to the hand-written model. -/\nnamespace DashLive.Gen.Arith\n\n")
